@@ -52,9 +52,9 @@ static std::set<int> open_fds ()
 static std::string gen_op (int mode, bool valid_bias)
 {	// classes: r/w valid, rx ry rn (misaligned / wrong mode / negative), s valid seeks, sb sm so, c valid commands, cu cn, t strings, k chunks, o opens
 	static const char *valid [] = { "r", "r", "w", "w", "s", "s", "c", "t" } ;
-	static const char *invalid [] = { "rx", "rn", "wx", "wn", "sb", "sm", "so", "sn", "cu", "cn", "tr", "tn", "tu", "te", "te", "kn", "kf", "o0", "o1", "o2", "o3", "o4", "o5", "o6", "o7", "o8", "o9", "oA", "oB", "oC", "rm", "wm", "wq", "rq", "wq", "rq" } ;
+	static const char *invalid [] = { "rx", "rn", "wx", "wn", "sb", "sm", "so", "sn", "cu", "cn", "tr", "tn", "tu", "te", "te", "kn", "kf", "o0", "o1", "o2", "o3", "o4", "o5", "o6", "o7", "o8", "o9", "oA", "oB", "oC", "rm", "wm", "wq", "rq", "wq", "rq", "oD", "oE", "oF", "oG", "oH", "oI", "oJ" } ;
 	std::string s ;
-	if (*rangeOf<int> (0, 9) < (valid_bias ? 6 : 4)) s = valid [*rangeOf<int> (0, 7)] ; else s = invalid [*rangeOf<int> (0, 35)] ;
+	if (*rangeOf<int> (0, 9) < (valid_bias ? 6 : 4)) s = valid [*rangeOf<int> (0, 7)] ; else s = invalid [*rangeOf<int> (0, 42)] ;
 	s += ":" ; s += "sifd" [*rangeOf<int> (0, 3)] ; s += *rangeOf<int> (0, 1) ? 'i' : 'f' ; s += std::to_string (*rc::gen::element (1, 2, 7, 64, 300)) ;
 	(void) mode ;
 	return s ;
@@ -96,6 +96,35 @@ static int bad_open (int k, std::string &what)
 		case 6 : { write_file (path, {}) ; f = sf_open (path.c_str (), SFM_READ, &i) ; break ; }
 		case 7 : f = sf_open (scratch_dir ().c_str (), SFM_READ, &i) ; break ;
 		case 8 : bad.read = nullptr ; f = sf_open_virtual (&bad, SFM_READ, &i, &mf) ; break ;
+		// callbacks the mode needs are missing (sf_open_virtual checks each of them); 14 and 16 on a valid image that would otherwise open
+		case 13 : bad.write = nullptr ; i.format = SF_FORMAT_AU | SF_FORMAT_PCM_16 ; i.channels = 1 ; i.samplerate = 8000 ; f = sf_open_virtual (&bad, SFM_WRITE, &i, &mf) ; break ;
+		case 14 : case 16 :
+		{	SF_INFO wi ; memset (&wi, 0, sizeof (wi)) ; wi.format = SF_FORMAT_WAV | SF_FORMAT_PCM_16 ; wi.channels = 1 ; wi.samplerate = 8000 ;
+			SNDFILE *g = open_mem (mf, SFM_WRITE, &wi) ; if (g) { short z [8] = { 1, 2, 3, 4, 5, 6, 7, 8 } ; sf_write_short (g, z, 8) ; sf_close (g) ; } mf.pos = 0 ;
+			if (k == 14) bad.write = nullptr ; else bad.read = nullptr ;
+			f = sf_open_virtual (&bad, SFM_RDWR, &i, &mf) ; break ;
+		}
+		case 15 : bad.get_filelen = nullptr ; f = sf_open_virtual (&bad, SFM_READ, &i, &mf) ; break ;
+		case 17 : bad.seek = nullptr ; i.seekable = 1 ; f = sf_open_virtual (&bad, SFM_READ, &i, &mf) ; break ;
+		// a system call fails on an open handle: the call fails, the handle records an error and sf_strerror (handle) has the text
+		case 18 : case 19 :
+		{	int fd = k == 18 ? open (path.c_str (), O_RDONLY | O_CREAT, 0600) : open ("/dev/full", O_WRONLY) ;
+			unlink (path.c_str ()) ;
+			if (fd < 0) return 0 ;
+			i.format = SF_FORMAT_RAW | SF_FORMAT_PCM_16 ; i.channels = 1 ; i.samplerate = 8000 ;
+			f = sf_open_fd (fd, SFM_WRITE, &i, SF_TRUE) ;
+			if (!f)
+			{	if (sf_error (nullptr) == 0 || !real_message (sf_strerror (nullptr))) { what = "sf_open_fd on an unwritable descriptor failed without a global error message" ; return 4 ; }
+				close (fd) ; return 0 ;
+			}
+			std::vector<short> z (20000, 0x1234) ; sf_count_t w = sf_write_short (f, z.data (), (sf_count_t) z.size ()) ;
+			int err = sf_error (f) ; std::string msg = sf_strerror (f) ; char es [256] = "" ; sf_error_str (f, es, sizeof (es)) ;
+			sf_close (f) ;
+			if (w == (sf_count_t) z.size ()) return 0 ;		// the descriptor took the data after all: nothing to check
+			if (err == 0) { what = "write on an unwritable descriptor returned " + std::to_string ((long long) w) + " of 20000 and left sf_error at 0" ; return 5 ; }
+			if (!real_message (msg.c_str ()) || !real_message (es)) { what = "after a failed system call sf_error is " + std::to_string (err) + " but sf_strerror (handle) is '" + msg + "', sf_error_str '" + es + "'" ; return 6 ; }
+			return 0 ;
+		}
 		default : { mf.data.assign (300, 0x5a) ; memcpy (mf.data.data (), "RIFFxxxxWAVEfmt ", 16) ; f = open_mem (mf, SFM_READ, &i) ; break ; }
 	}
 	unlink (path.c_str ()) ;
